@@ -241,6 +241,9 @@ fn replay(rep: &serde_json::Value) -> Result<(bool, String), String> {
         if scenario == "c01.oods-binding" {
             return scen_c01::replay_oods_binding(rep);
         }
+        if scenario == "c01.public-memory" {
+            return scen_c01::replay_public_memory(rep);
+        }
         if scenario.starts_with("c02.") || scenario.starts_with("c17.") || scenario.starts_with("c18.") || scenario.starts_with("c03.") || scenario.starts_with("c01.") {
             return scen_proof::replay(rep);
         }
